@@ -25,17 +25,17 @@ Section C06.
 
   (* header protection is a bijection on packets: the sample (16 bytes, 4 bytes after the pn offset) is not
      touched, the first byte and the pn bytes are XORed with a mask that depends on the sample only *)
-  Theorem c06_hp_unprotect_then_protect : forall hk short pkt off U n v,
-    unprotect hkey mask hk short pkt off = UOk U n v -> 1 <= off <= zlen pkt ->
+  Theorem c06_hp_unprotect_then_protect : forall hk pkt off U n v,
+    unprotect hkey mask hk pkt off = UOk U n v -> 1 <= off <= zlen pkt ->
     hp_protect hkey mask hk U off n = Some pkt /\ zlen U = zlen pkt /\ 1 <= n <= 4 /\
-    n = Z.land (hd 0 U) 3 + 1 /\ Z.land (hd 0 U) (reserved_mask short) = 0 /\
+    n = Z.land (hd 0 U) 3 + 1 /\
     skipn (Z.to_nat (off + n)) U = skipn (Z.to_nat (off + n)) pkt /\ off + 20 <= zlen pkt.
   Proof. exact (unprotect_inv hkey mask). Qed.
 
-  Theorem c06_hp_protect_then_unprotect : forall hk short U off n P,
+  Theorem c06_hp_protect_then_unprotect : forall hk U off n P,
     hp_protect hkey mask hk U off n = Some P -> 1 <= off <= zlen U -> 1 <= n <= 4 ->
-    n = Z.land (hd 0 U) 3 + 1 -> Z.land (hd 0 U) (reserved_mask short) = 0 ->
-    exists v, unprotect hkey mask hk short P off = UOk U n v /\ zlen P = zlen U /\
+    n = Z.land (hd 0 U) 3 + 1 ->
+    exists v, unprotect hkey mask hk P off = UOk U n v /\ zlen P = zlen U /\
               v = match get_be (Z.to_nat n) 0 (sub (skipn (Z.to_nat off) U) 0 n) with Some (x, _) => x | None => 0 end.
   Proof. exact (protect_unprotect hkey mask). Qed.
 
@@ -48,7 +48,7 @@ Section C06.
     hp_protect hkey mask hk (aad ++ enc k pn aad body) (pn_off h) (width e) = Some P /\
     20 <= width e + zlen body + TAG_LEN /\ pn_off h + 20 <= bufsz /\
     (is_short h = false -> width e + zlen body + TAG_LEN < 2 ^ 14).
-  Proof. exact (build_spec key hkey enc dec mask). Qed.
+  Proof. exact (build_spec key hkey enc dec mask 0). Qed.
 
   (* ROUND TRIP: header, packet number, key phase and body are recovered, for every data header
      (Initial with any token, 0-RTT, Handshake, 1-RTT with either key phase and spin bit, connection ids of
@@ -78,16 +78,47 @@ Section C06.
       k' = k /\ pn' = pn /\ body' = body /\ (hk' = hk -> firstn (Z.to_nat total) dg = P).
   Proof. exact (p_c06_tamper_rejected key hkey enc dec mask). Qed.
 
-  (* every modification that keeps the length — every single-bit flip at every position — is not accepted:
+  (* DISCARDED (full strength after the fix of F45).  Whatever datagram reaches a receiver holding any packet key,
+     any header key and any packet-number expectation (one that PacketNumber::decode does not overflow on): the
+     receive path either DROPS it (parse error, refused pn, AEAD failure, or not a protected packet at all), or it
+     delivers exactly the honest sender's packet.  It never answers with a connection error. *)
+  Theorem c06_tamper_discarded :
+    (forall k n a c p, dec k n a c = Some p -> c = enc k n a p) ->
+    forall h phase pn e body bufsz k hk P,
+    build key hkey enc mask h phase pn e body bufsz k hk = BOk P -> wf_header h ->
+    forall k' hk' dl exp dg,
+      no_forgery key enc k pn (build_aad h phase e (zlen body)) body dg ->
+      (forall n v, decode (mk_pnum n v) exp <> DecOverflow) ->
+      let r := recv1 key hkey dec mask k' hk' dl exp dg in
+      dropped r \/
+      exists h' total ph, r = RxAccept h' total pn ph body /\ k' = k /\ is_short h' = is_short h /\
+                          (hk' = hk -> firstn (Z.to_nat total) dg = P).
+  Proof. exact (p_c06_tamper_discarded key hkey enc dec mask). Qed.
+
+  (* every modification that keeps the length — every single-bit flip at every position — is DROPPED:
      every bit of the packet is covered (AAD, ciphertext/tag, or a masked field whose unmasked value is in the AAD) *)
-  Theorem c06_modified_rejected :
+  Theorem c06_modified_dropped :
     (forall k n a c p, dec k n a c = Some p -> c = enc k n a p) ->
     forall h phase pn e body bufsz k hk P,
     build key hkey enc mask h phase pn e body bufsz k hk = BOk P -> wf_header h ->
     forall k' dl exp dg, zlen dg = zlen P -> dg <> P ->
       no_forgery key enc k pn (build_aad h phase e (zlen body)) body dg ->
-      forall h' total pn' ph body', recv1 key hkey dec mask k' hk dl exp dg <> RxAccept h' total pn' ph body'.
-  Proof. exact (p_c06_modified_rejected key hkey enc dec mask). Qed.
+      (forall n v, decode (mk_pnum n v) exp <> DecOverflow) ->
+      dropped (recv1 key hkey dec mask k' hk dl exp dg).
+  Proof. exact (p_c06_modified_dropped key hkey enc dec mask). Qed.
+
+  (* an AUTHENTIC packet (made with the keys) whose reserved bits are set is still answered with
+     PROTOCOL_VIOLATION ([build_r rsv]: the writer with reserved bits rsv <> 0) *)
+  Theorem c06_authentic_reserved_is_error :
+    (forall k n a p, dec k n a (enc k n a p) = Some p) ->
+    (forall k n a p, zlen (enc k n a p) = zlen p + TAG_LEN) ->
+    forall rsv h phase pn e body bufsz k hk P dl exp,
+    build_r key hkey enc mask rsv h phase pn e body bufsz k hk = BOk P -> wf_header h ->
+    In rsv (rsv_values (is_short h)) -> rsv <> 0 ->
+    be_packet dl P = POk h (zlen P) (pn_off h) ->
+    0 <= exp -> decode (wire e) exp = DecOk pn -> 0 <= payload e < 2 ^ (8 * width e) ->
+    recv1 key hkey dec mask k hk dl exp P = RxConnErr.
+  Proof. exact (p_c06_authentic_reserved key hkey enc dec mask). Qed.
 
   Theorem c06_other_key_or_pn_rejected :
     (forall k n a c p, dec k n a c = Some p -> c = enc k n a p) ->
@@ -135,15 +166,26 @@ Proof. exact p_c06_toy_dec_enc. Qed.
 
 (* ---------------------------------------------------------------- instances (vm_compute) *)
 
-(* finding F45: "discarded" is REFUTED — one flipped reserved bit of a valid packet gives a connection
-   error (checked before the packet is authenticated), for a short and for a long header *)
-Theorem c06_tamper_discard_refuted :
-  exists P P' : list Z, tbuild (mk_header 3 8 0 0 1) true 1 (U16 1) (cbytes 1000 3) 1200 7 9 = BOk P /\
-    P' = flip_bit P 3 /\ recv1 Z Z toy_dec toy_mask 7 9 8 0 P' = RxConnErr /\
-  exists Q Q' : list Z, tbuild (mk_header 2 8 8 0 0) false 1 (U16 1) (cbytes 1000 3) 1200 7 9 = BOk Q /\
-    Q' = flip_bit Q 4 /\ recv1 Z Z toy_dec toy_mask 7 9 8 0 Q' = RxConnErr.
-Proof. eexists. eexists. split; [vm_compute; reflexivity|]. split; [reflexivity|]. split; [vm_compute; reflexivity|].
-       eexists. eexists. split; [vm_compute; reflexivity|]. split; [reflexivity|]. vm_compute; reflexivity. Qed.
+(* the repaired finding F45 on instances: one flipped reserved bit of a valid packet is DROPPED (decryption
+   failure) for a short and for a long header; the same packets made by a key holder who sets a reserved bit are
+   answered with the connection error *)
+Theorem c06_reserved_bit_instances :
+  exists P : list Z, tbuild (mk_header 3 8 0 0 1) true 1 (U16 1) (cbytes 1000 3) 1200 7 9 = BOk P /\
+    recv1 Z Z toy_dec toy_mask 7 9 8 0 (flip_bit P 3) = RxDecrypt /\
+  exists Q : list Z, tbuild (mk_header 2 8 8 0 0) false 1 (U16 1) (cbytes 1000 3) 1200 7 9 = BOk Q /\
+    recv1 Z Z toy_dec toy_mask 7 9 8 0 (flip_bit Q 4) = RxDecrypt /\
+  exists P' : list Z, tbuild_r 16 (mk_header 3 8 0 0 1) true 1 (U16 1) (cbytes 1000 3) 1200 7 9 = BOk P' /\
+    be_packet 8 P' = POk (mk_header 3 8 0 0 1) (zlen P') (pn_off (mk_header 3 8 0 0 1)) /\
+    recv1 Z Z toy_dec toy_mask 7 9 8 0 P' = RxConnErr /\
+  exists Q' : list Z, tbuild_r 8 (mk_header 2 8 8 0 0) false 1 (U16 1) (cbytes 1000 3) 1200 7 9 = BOk Q' /\
+    be_packet 8 Q' = POk (mk_header 2 8 8 0 0) (zlen Q') (pn_off (mk_header 2 8 8 0 0)) /\
+    recv1 Z Z toy_dec toy_mask 7 9 8 0 Q' = RxConnErr.
+Proof.
+  eexists. split; [vm_compute; reflexivity|]. split; [vm_compute; reflexivity|].
+  eexists. split; [vm_compute; reflexivity|]. split; [vm_compute; reflexivity|].
+  eexists. split; [vm_compute; reflexivity|]. split; [vm_compute; reflexivity|]. split; [vm_compute; reflexivity|].
+  eexists. split; [vm_compute; reflexivity|]. split; vm_compute; reflexivity.
+Qed.
 
 (* non-vacuity: for each data header type (cid lengths 0, 8, 20; token; pn lengths 1..4; both key phases; body at
    the sampling minimum) build succeeds, be_packet finds the header in the protected bytes at [pn_off] — the
@@ -175,7 +217,9 @@ Print Assumptions c06_hp_protect_then_unprotect.
 Print Assumptions c06_build_spec.
 Print Assumptions c06_roundtrip.
 Print Assumptions c06_tamper_rejected.
-Print Assumptions c06_modified_rejected.
+Print Assumptions c06_tamper_discarded.
+Print Assumptions c06_modified_dropped.
+Print Assumptions c06_authentic_reserved_is_error.
 Print Assumptions c06_other_key_or_pn_rejected.
 Print Assumptions c06_keyphase_known.
 Print Assumptions c06_keyphase_first.
@@ -185,5 +229,5 @@ Print Assumptions c06_get_remote_no_panic.
 Print Assumptions c06_toy_roundtrip.
 Print Assumptions c06_toy_len.
 Print Assumptions c06_toy_dec_enc.
-Print Assumptions c06_tamper_discard_refuted.
+Print Assumptions c06_reserved_bit_instances.
 Print Assumptions c06_nonvacuous.
